@@ -70,7 +70,8 @@ class NoiseHistory(TracedMachine):
         self.mode = None
 
     @initialize(kind=st.sampled_from(["white", "red", "red", "alpha", "alpha", "pink"]), seed=st.integers(0, 2 ** 32 - 1),
-                fs=st.sampled_from([1.0, 10.0, 100.0, 1e4, 3.7]), ratio=gens.loguniform(20.0, 2000.0), span=st.floats(0.05, 1.0),
+                fs=st.sampled_from([1.0, 10.0, 100.0, 1e4, 3.7]), ratio=st.one_of(gens.loguniform(20.0, 2000.0), gens.loguniform(20.0, 2000.0),
+                                                                                  gens.loguniform(3.3e4, 1e5)), span=st.floats(0.05, 1.0),
                 alpha=st.one_of(st.floats(0.01, 2.0), st.sampled_from([0.01, 1.0, 2.0])), init=st.booleans(),
                 psd=st.sampled_from([1.0, 0.01, 42.0]), mode=st.sampled_from(["series", "series", "series", "samples"]))
     def init(self, kind, seed, fs, ratio, span, alpha, init, psd, mode):
@@ -85,8 +86,9 @@ class NoiseHistory(TracedMachine):
         self.twin = make(kind, self.p)
         self.scale = float(np.sqrt(psd * fs)) if kind == "white" else None
 
-    @precondition(lambda self: self.gen is not None and self.mode == "series" and self.total < 30000)
-    @rule(n=st.one_of(st.sampled_from([0, 1]), st.sampled_from([0, 1, 2, 3]), st.integers(0, 50), st.integers(0, 5000)))
+    @precondition(lambda self: self.gen is not None and self.mode == "series" and self.total < 400000)
+    @rule(n=st.one_of(st.sampled_from([0, 1]), st.sampled_from([0, 1, 2, 3]), st.integers(0, 50), st.integers(0, 5000), st.integers(0, 5000),
+                     st.sampled_from([4095, 4096, 4097, 65535, 65536, 65537, 70000, 100000, 131073])))   # block/buffer sizes
     def series(self, n):
         self.step("series", n=n)
 
@@ -152,10 +154,12 @@ class NoiseHistory(TracedMachine):
             labels.append("has-empty-request")
         if self.p.get("init") if hasattr(self, "p") else False:
             labels.append("init_filter")
+        if any(n > 65536 for n in self.sizes):
+            labels.append("has-request>65536")
         return nt, labels
 
 
 PARTS = [MachinePart("streams", NoiseHistory, n_quick=100, n_thorough=800, steps=16)]
-QUOTAS = {"has-empty-request": {"quick": 60, "thorough": 1000}, "gen:red": {"quick": 30, "thorough": 500},
+QUOTAS = {"has-request>65536": {"quick": 20, "thorough": 300}, "has-empty-request": {"quick": 60, "thorough": 1000}, "gen:red": {"quick": 30, "thorough": 500},
           "gen:alpha": {"quick": 30, "thorough": 500}, "mode:samples": {"quick": 20, "thorough": 300},
           "part:streams": {"quick": 60, "thorough": 1500}}
